@@ -55,6 +55,8 @@ def entry_configs(cls: str) -> list:
                 if cls == "graph" and w in ("flat_to_frames", "flat_to_file", "grouped_to_file"):
                     continue  # these entry points choose the stream class themselves
                 out.append((pi, fs, w))
+    if cls != "graph":
+        out.append((3, 250, "sink_serialize"))  # GenericStatementSink.serialize(): own defaults
     return out
 
 
